@@ -2,7 +2,7 @@
 
 TRUSTED_BASE = [
     "T1 Verus 0.2026.09.13 + Z3 (and Kani 0.68 + CBMC 6.11 where a Kani obligation is listed)",
-    "T2 the extractor vx: item location, normalisations N1-N6 / N4b and the desugarings counted in desugarings_applied (R-FMT R-LOG R-ALL R-FOREACH R-ENUM R-EXTMAP R-UNDERSCORE R-MAPITER R-CONTINUE R-COLLECT R-SPAWN R-REC R-SEGMENT R-SLICE1 R-UFCS R-UTF8 R-CLOSPEC R-TAKE R-ASSERTEQ R-WHILELET R-SELF R-FLATMAP R-MAPCOLLECT R-DEREFSET - DESIGN 3.1 and 10.5); per-item SHA-256 in functions_under_contract",
+    "T2 the extractor vx: item location, normalisations N1-N6 / N4b and the desugarings counted in desugarings_applied (R-FMT R-LOG R-ALL R-FOREACH R-ENUM R-EXTMAP R-UNDERSCORE R-MAPITER R-CONTINUE R-COLLECT R-SPAWN R-REC R-SEGMENT R-SLICE1 R-UFCS R-UTF8 R-CLOSPEC R-TAKE R-ASSERTEQ R-WHILELET R-SELF R-FLATMAP R-MAPCOLLECT R-DEREFSET R-GUARD - DESIGN 3.1 and 10.5); per-item SHA-256 in functions_under_contract",
     "T3 vstd specifications of core/alloc items and the assumed std specifications listed under assumptions",
     "T5 machine arithmetic is NOT treated as mathematical: Verus checks overflow on every executable operation (the two exceptions - a depth counter and a node counter in recursive functions - are listed under assumptions of the properties concerned)",
 ]
@@ -43,7 +43,7 @@ PROPS = {
         "bounded_search": [{"obligation": "replay/c13#races_and_lagging_readers",
                             "bound": "fixed two/three-epoch histories, both configurations: a lookup / key_history on an uncached instance with another instance's publish running right AFTER and right BEFORE its read of the epoch record; a fresh reader "
                                      "served right after the storage operation that carries the epoch record of a commit; a read-only directory lagging 0..3 (thorough: 6) epochs behind storage, with and without cache"}],
-        "scope": "partial: a commit hands ALL its records to the database in ONE storage operation with the epoch record last (manager/write_committed_records#E_commit), so no reader can see the new epoch record without the records it announces; one iteration of the change poller follows the protocol exclusive lock -> flush -> reload of the epoch record -> change signal (the flush requires the exclusive lock to have been taken, the signal requires flush and reload: knowledge tokens of one loop iteration); request handlers read the epoch record THROUGH the object cache (retrieve_azks; a direct read is a permission only the poller holds), a clone of a directory shares the cache lock and the storage manager of the original (so the poller's exclusive lock on a clone excludes the original's readers); reads of the epoch record are modelled as NONDETERMINISTIC (a publish may complete between two of them), and lookup / batch_lookup / key_history (head, every update proof, tail) / audit / get_epoch_hash take the epoch, the state filter, every tree proof and the root hash of an answer from ONE value of that record (never a proof stitched together from two epochs, whatever the interleaving with publishes); the as-of read of a node record never returns a node newer than the epoch asked for (so no answer stitches a newer node into an older epoch); a child a node names but whose record holds only newer versions (reader behind storage) is an error for get_child_node, never an absent child (else the proof walk would return a proof that misses a subtree); the read returns the latest "
+        "scope": "partial: a commit hands ALL its records to the database in ONE storage operation with the epoch record last (manager/write_committed_records#E_commit), so no reader can see the new epoch record without the records it announces; the four request handlers that take the shared side of the cache lock (lookup, batch_lookup, key_history, audit) hold it from their first statement to their end (R-GUARD: a guard bound to a name lives to the end of the function, a guard matched against `_` is dropped at once; an explicit drop is exit 2); one iteration of the change poller follows the protocol exclusive lock -> flush -> reload of the epoch record -> change signal (the flush requires the exclusive lock to have been taken, the signal requires flush and reload: knowledge tokens of one loop iteration); request handlers read the epoch record THROUGH the object cache (retrieve_azks; a direct read is a permission only the poller holds), a clone of a directory shares the cache lock and the storage manager of the original (so the poller's exclusive lock on a clone excludes the original's readers); reads of the epoch record are modelled as NONDETERMINISTIC (a publish may complete between two of them), and lookup / batch_lookup / key_history (head, every update proof, tail) / audit / get_epoch_hash take the epoch, the state filter, every tree proof and the root hash of an answer from ONE value of that record (never a proof stitched together from two epochs, whatever the interleaving with publishes); the as-of read of a node record never returns a node newer than the epoch asked for (so no answer stitches a newer node into an older epoch); a child a node names but whose record holds only newer versions (reader behind storage) is an error for get_child_node, never an absent child (else the proof walk would return a proof that misses a subtree); the read returns the latest "
                  "node whenever it is not newer, and otherwise only NotFound; get_epoch_hash answers (e, h) with e the latest epoch of the ONE epoch record it read and h the root hash of the "
                  "root node as of that very e (get_root_hash_safe refuses any epoch other than the record's). Interleavings, the change poller and the cache are not decided.",
         "trusted": ["T6 async functions are verified under single-task sequential semantics; a storage read is a function of (manager, key) during one call",
